@@ -56,6 +56,14 @@ def run_specs(prop, specs, seed, workers=None, level='model_checking',
     (default {prop})."""
     properties = properties or {prop}
     cr = CheckResult(prop, level)
+    only = [x for x in os.environ.get('VERIF_ONLY_SPECS', '').split(',') if x]
+    if only:
+        # development aid: run the matching explorations only (the runner
+        # then keeps the evidence out of /verif/evidence)
+        specs = [s for s in specs
+                 if any(x in (s.get('name') or '') for x in only)]
+        cr.notes.append('partial run: VERIF_ONLY_SPECS=%s (%d explorations)'
+                        % (','.join(only), len(specs)))
     rng = random.Random(seed)
     tot = collections.Counter()
     statuses, stats = collections.Counter(), collections.Counter()
